@@ -366,16 +366,31 @@ func c17Wiring(c *Ctx) {
 			r.Check(ok, "C17/R4", "wc_rotation.GetSigningRoot:"+k, k+" is wired as in compute_signing_root / BLSToExecutionChange", c.Pos(fn.Pos()), "value is "+g)
 		}
 		// ObjectRoot is the BLSToExecutionChange root, result is SigningData root
-		good := false
+		// EVERY success return yields the root just computed (a value remembered from an earlier call, a zero root, … is
+		// not the spec's function of this index)
+		good, nSucc := true, 0
 		for _, ret := range ssax.Returns(fn) {
-			if len(ret.Results) == 2 && strings.Contains(ssax.Path(ret.Results[0]), "HashTreeRoot()#0") {
-				if ex, ok := ssax.Resolve(ret.Results[0]).(*ssa.Extract); ok {
+			if len(ret.Results) != 2 || ret.Block() == fn.Recover {
+				continue
+			}
+			for _, lf := range ssax.Leaves(ret.Results[0], ret) {
+				// the zero root accompanies an error return
+				if c0, isConst := lf.V.(*ssa.Const); isConst && c0.Value == nil {
+					continue
+				}
+				nSucc++
+				isRoot := false
+				if ex, ok := lf.V.(*ssa.Extract); ok && ex.Index == 0 {
 					if call, ok := ex.Tuple.(*ssa.Call); ok && strings.HasSuffix(callName(call), "entity.(SigningData).HashTreeRoot") {
-						good = true
+						isRoot = true
 					}
+				}
+				if !isRoot {
+					good = false
 				}
 			}
 		}
+		good = good && nSucc > 0
 		r.Check(good && strings.Contains(stores["SigningData.ObjectRoot"], "ValidatorIndex") == false, "C17/R4", "wc_rotation.GetSigningRoot:result", "the result is hash_tree_root(SigningData)", c.Pos(fn.Pos()), "success return is not SigningData.HashTreeRoot()")
 		if orr := stores["SigningData.ObjectRoot"]; true {
 			r.Check(strings.Contains(orr, "HashTreeRoot()#0"), "C17/R4", "wc_rotation.GetSigningRoot:object-root-source", "object_root is hash_tree_root(BLSToExecutionChange)", c.Pos(fn.Pos()), "ObjectRoot := "+orr)
